@@ -24,7 +24,8 @@ RULE = ("(1) complete matrix, evaluated inside 21 worker interpreters {python, p
 ASSUMPTIONS = ["harness code never uses assert for verdicts (it runs under -O in the workers)"]
 KNOWN = {}
 
-DECOS = ["require", "ensure", "snapshot", "invariant"]
+# "snapshot+ensure": a snapshot stacked on a postcondition, both with the same `enabled` argument
+DECOS = ["require", "ensure", "snapshot", "snapshot+ensure", "invariant"]
 ENABLED = ["default", "True", "False", "SLOW"]
 KINDS = ["function", "async", "method", "staticmethod", "classmethod", "getter"]
 # the decorator stacked ABOVE @staticmethod / @classmethod receives the descriptor object itself; only the disabled
@@ -195,6 +196,11 @@ def eval_cell(deco, enabled, kind, base="bare"):
         obs["vars_unchanged"] = {k: v for k, v in vars(target).items() if k != "__postcondition_snapshots__"} == {
             k: v for k, v in before_t.items() if k != "__postcondition_snapshots__"} and (
             len(target.__postcondition_snapshots__) == 0)
+    elif deco == "snapshot+ensure":
+        below = icontract.ensure(cond, **kw)(orig)
+        out = icontract.snapshot(cap if kind not in ("getter",) else (lambda: cap()), name="s", **kw)(below)
+        obs["identity"] = out is orig
+        obs["vars_unchanged"] = dict(vars(orig)) == before
     else:
         c = cond
         dec = getattr(icontract, deco)(c, **kw)
